@@ -4,6 +4,8 @@ import EaselModel.Buffer.ReadFetch
 import EaselModel.Buffer.TokenOps
 import EaselModel.Buffer.KeepLines
 import EaselModel.Buffer.History
+import EaselModel.Buffer.AllLines
+import EaselModel.Buffer.Quiet
 /-! # C05 — the input buffer behaves as a byte array with a cursor in every mode and history
 
 Property theorems only; the lemmas are in `EaselModel/Buffer/*`. `Buf` is the model of `ESL_BUFFER`
@@ -140,10 +142,10 @@ theorem history_no_fault (mode : Mode) (ps : Nat) (src : Bytes) (hps : 0 < ps) (
   EaselModel.Buffer.history_no_fault mode ps src hps P hP ops hv
 
 /-- **Re-reading under an anchor**: in any state reached by a valid history (`R P a s`), while an anchor is set at
-    offset `A`, every `SetOffset o` with `A ≤ o` inside the input succeeds and the bytes then read at `o` are the
+    offset `A`, every `SetOffset o` with `A ≤ o ≤ length of the input` (the very end included) succeeds and the bytes then read at `o` are the
     bytes of the input at `o` — in every mode, also when the stream has long moved on. -/
 theorem reread_under_anchor (P : Nat) (a : AState) (s : Sess) (r : R P a s) (A o k : Nat)
-    (hA : a.anchor = some A) (hle : A ≤ o) (hlt : o < a.src.length) :
+    (hA : a.anchor = some A) (hle : A ≤ o) (hlt : o ≤ a.src.length) :
     Valid P a (.setOffset o) ∧
     obsOf (.setOffset o) (s.step (.setOffset o)).1 (s.step (.setOffset o)).2 = ⟨.ok, [], o⟩ ∧
     (let s' := (s.step (.setOffset o)).2
@@ -159,6 +161,21 @@ theorem get_prefix (P : Nat) (a : AState) (s : Sess) (r : R P a s) (hlt : a.cur 
     min P (a.src.length - a.cur) ≤ (get s.b).1.n :=
   EaselModel.Buffer.get_prefix r hlt
 
+/-- **Reading a whole input line by line** (`while (esl_buffer_GetLine(..) == eslOK)`, with any mix of `GetLine`,
+    `FetchLine`, `FetchLineAsStr`): on every opener, every page size ≥ 1 and every input, the lines returned until the
+    first non-OK status are exactly the bodies of `specLines src`. This is the abstract line reader that the models of
+    the alignment and sequence-file parsers (C01, C02, C04 …) are built on. -/
+theorem readLines_eq_specLines (mode : Mode) (ps : Nat) (src : Bytes) (hps : 0 < ps) (pick : Nat → Op)
+    (hpick : ∀ i, isLineOp (pick i)) :
+    readLines pick (src.length + 1) { b := openBuf mode ps src } = (specLines src).map (·.body) :=
+  EaselModel.Buffer.readLines_eq_specLines mode ps src hps pick hpick
+
+/-- In the modes that hold the whole input (string, slurped file, mmap, short pipe) `Get` exposes all the rest of it. -/
+theorem get_all_in_memory (P : Nat) (a : AState) (s : Sess) (r : R P a s) (hf : s.b.hasfp = false)
+    (hlt : a.cur < a.src.length) :
+    (get s.b).1.st = .ok ∧ (get s.b).1.bytes = a.abs.suffix ∧ (get s.b).1.n = a.src.length - a.cur :=
+  EaselModel.Buffer.get_all_in_memory r hf hlt
+
 /-- One step: any of the 14 operations, from any state related to a specification state, within the contract,
     yields the specification's observation and a related state again (anchor bookkeeping included). -/
 theorem step_simulates (P : Nat) (op : Op) : SimStep P op := sim_all P op
@@ -169,6 +186,21 @@ theorem step_simulates (P : Nat) (op : Op) : SimStep P op := sim_all P op
 theorem stable_ptr_valid_partial (b : Buf) (nmin : Nat) (ha : b.anchor = some 0) (hroom : b.n + b.pagesize ≤ b.balloc) :
     (refill b nmin).2.memgen = b.memgen :=
   refill_stable_room b nmin ha hroom
+
+/-- PROVED PART 2 — **pointer stability where it does hold.** Once nothing can be read any more (`Quiet`: the whole
+    input is in memory — string, slurped file, mmap, short pipe — or the stream has reported end-of-file, e.g. any
+    input shorter than a page), no operation other than `SetStableAnchor` itself (which rebases the window once, by
+    design) and a `SetOffset` that repositions an unanchored FILE moves or reallocates the window: pointers handed
+    out stay valid, with or without a stable anchor, and the state stays quiet. -/
+theorem stable_ptr_valid_quiet (b : Buf) (lp : Option Nat) (op : Op) (q : Quiet b)
+    (h1 : ∀ o, op ≠ .setStableAnchor o) (h2 : ∀ o, op = .setOffset o → ¬ (b.mode = .file ∧ b.anchor = none)) :
+    (opRun b lp op).2.memgen = b.memgen ∧ Quiet (opRun b lp op).2 :=
+  quiet_step b lp op q h1 h2
+
+/-- the openers that are quiet from the start -/
+theorem open_quiet (mode : Mode) (ps : Nat) (src : Bytes)
+    (h : mode = .string ∨ mode = .mmap ∨ mode = .allfile ∨ src.length < ps) : Quiet (openBuf mode ps src) :=
+  EaselModel.Buffer.open_quiet mode ps src h
 
 /-- … and it fails without that hypothesis: stable anchor at offset 0 of the stream "abcd" read with page size 2;
     the refill that `GetLine` issues reallocates the window (known finding `C05:stable-anchor:realloc-in-refill`). -/
@@ -188,6 +220,12 @@ example : ValidHist 1 (AState.init [97, 13, 10, 98]) [.setAnchor 0, .getLine, .s
   ⟨⟨Nat.le_refl _, Or.inl rfl⟩, trivial, ⟨by decide, Or.inr ⟨0, rfl, Nat.le_refl _⟩⟩, trivial, trivial, trivial⟩
 example : (obsRun { b := openBuf .stream 1 [97, 13, 10, 98] } [.setAnchor 0, .getLine, .setOffset 0, .getLine, .raiseAnchor 0]).map (·.bytes)
     = [[], [97], [], [97], []] := by decide
+example : isLineOp ((fun i => if i % 2 = 0 then Op.getLine else Op.fetchLineStr) 3) := Or.inr (Or.inr rfl)
+example : readLines (fun _ => .getLine) 5 { b := openBuf .stream 1 [97, 13, 10, 98] } = [[97], [98]] := by decide
+-- rewinding to an anchor that sits at the very end of the input (empty input) is inside the contract
+example : ValidHist 1 (AState.init []) [.setAnchor 0, .getLine, .setOffset 0, .raiseAnchor 0] :=
+  ⟨⟨Nat.le_refl _, Or.inl rfl⟩, trivial, ⟨Or.inr ⟨rfl, by decide⟩, Or.inl (Nat.le_refl _)⟩, trivial, trivial⟩
+example : Quiet (openBuf .stream 8 [97, 10, 98]) := open_quiet .stream 8 [97, 10, 98] (Or.inr (Or.inr (Or.inr (by decide))))
 example : ∃ b : Buf, b.anchor = some 0 ∧ b.n + b.pagesize ≤ b.balloc :=
   ⟨{ (openBuf .stream 2 [97]) with anchor := some 0, balloc := 8 }, by decide⟩
 
